@@ -95,6 +95,12 @@ class C10(Prop):
                     p_ = res.kernel.procs[n[1]]
                     if p_.death is None or p_.death >= call["now"] - 1e-6:
                         quiet = False
+            # sentinels left over from an earlier shrink (posted for workers that timed out instead) make further
+            # workers leave "on sentinel": more such exits than this call asked for means a worker left meanwhile
+            n_sent = sum(1 for n in res.obs.notes if n[0] == "mpinfo" and n[3].startswith("Shutting down worker on sentinel")
+                         and call["now"] - 1e-6 <= n[2] <= e["now"] + 1e-6 and res.kernel.procs[n[1]].orig_ppid == 100)
+            if n_sent > max(0, len(r["old_pids"]) - kw["max_workers"]):
+                quiet = False
             # a worker still registered when the call began although it was already gone
             for op_ in r["old_pids"]:
                 d_ = res.kernel.procs[op_].death
